@@ -46,7 +46,7 @@ fn err_matches(real: &Error, r: &RefErr) -> bool {
 
 fn check_text(prop: &str, text: &str, rep: &mut Report) {
     let chars: Vec<char> = text.chars().collect();
-    let opt_list: &[RefOpts] = if prop == "C12" { &ALL_OPTS } else { &ALL_OPTS[..1] };
+    let opt_list: &[RefOpts] = if prop == "C12" || prop == "C03" { &ALL_OPTS } else { &ALL_OPTS[..1] };
     let strict_ref = ref_parse(&chars, ALL_OPTS[0]);
     for &o in opt_list {
         let r = ref_parse(&chars, o);
@@ -147,29 +147,49 @@ fn check_bytes(prop: &str, bytes: &[u8], rep: &mut Report) {
     }
 }
 
-fn deep_nesting(rep: &mut Report, depth: usize) {
-    // C03: nesting depth does not grow the stack: parse inside a thread with a small fixed stack
-    let handle = std::thread::Builder::new().stack_size(256 * 1024).spawn(move || {
-        let mut s = String::with_capacity(2 * depth + 1);
-        for _ in 0..depth { s.push('['); }
-        s.push('1');
-        for _ in 0..depth { s.push(']'); }
-        let r = Value::parse_str(&s);
-        let ok = match &r { Ok((v, cm)) => cm.len() == depth + 1 && v.traverse().count() == depth + 1, Err(_) => false };
-        // leak the deep value: dropping it recurses (not part of parsing)
-        std::mem::forget(r);
-        let mut t = String::new();
-        for _ in 0..depth { t.push_str("{\"k\":"); }
-        t.push_str("null");
-        let r2 = Value::parse_str(&t).is_err();
-        ok && r2
-    }).unwrap();
-    match handle.join() {
-        Ok(true) => {}
-        Ok(false) => rep.violation("deeply nested document parses in a small fixed stack", "deep", format!("depth {}", depth), "wrong result".into()),
-        Err(_) => rep.violation("deeply nested document parses in a small fixed stack", "deep", format!("depth {}", depth), "thread panicked".into()),
+/// the documents of the deep-nesting check (built by the child process)
+fn deep_doc(shape: &str, depth: usize) -> (String, bool) {
+    let mut s = String::with_capacity(6 * depth + 16);
+    match shape {
+        "arrays" => { for _ in 0..depth { s.push('['); } s.push('1'); for _ in 0..depth { s.push(']'); } (s, true) }
+        "objects" => { for _ in 0..depth { s.push_str("{\"a\":"); } s.push('0'); for _ in 0..depth { s.push('}'); } (s, true) }
+        "member-array" => { s.push_str("{\"k\":"); for _ in 0..depth { s.push('['); } for _ in 0..depth { s.push(']'); } s.push_str(",\"z\":1}"); (s, true) }
+        "mixed" => { for _ in 0..depth / 2 { s.push_str("[{\"a\":"); } s.push_str("null"); for _ in 0..depth / 2 { s.push_str("}]"); } (s, true) }
+        "unclosed-arrays" => { for _ in 0..depth { s.push('['); } (s, false) }
+        _ => { for _ in 0..depth { s.push_str("{\"k\":"); } s.push_str("null"); (s, false) }
     }
-    rep.eval(true, depth as u64);
+}
+
+/// child process: parse (and traverse) one deep document inside a small fixed stack; exit 0 iff ok
+pub fn deep_child(shape: &str, depth: usize) -> i32 {
+    let shape = shape.to_string();
+    let handle = std::thread::Builder::new().stack_size(256 * 1024).spawn(move || {
+        let (doc, valid) = deep_doc(&shape, depth);
+        let r = Value::parse_str(&doc);
+        let ok = match &r {
+            Ok((v, cm)) => valid && cm.len() >= depth && v.traverse().count() == cm.len(),
+            Err(_) => !valid,
+        };
+        // the deep value is leaked: dropping it recurses, which is not part of parsing
+        std::mem::forget(r);
+        ok
+    }).unwrap();
+    match handle.join() { Ok(true) => 0, _ => 3 }
+}
+
+fn deep_nesting(rep: &mut Report, depth: usize) {
+    // C03: nesting depth does not grow the stack.  Each shape runs in a child process because a
+    // stack overflow aborts the process.
+    let exe = std::env::current_exe().expect("current_exe");
+    for shape in ["arrays", "objects", "member-array", "mixed", "unclosed-arrays", "unclosed-objects"] {
+        let st = std::process::Command::new(&exe).args(["deep", shape, &depth.to_string()]).status();
+        rep.eval(true, crate::fnv(shape.as_bytes()) ^ depth as u64);
+        match st {
+            Ok(s) if s.success() => {}
+            Ok(s) => rep.violation("deeply nested document parses (and traverses) in a 256 KiB stack", &format!("deep:{}", shape), format!("shape {} depth {}", shape, depth), format!("child ended with {:?} (stack overflow / abort / wrong result)", s)),
+            Err(e) => rep.violation("deeply nested document parses in a small fixed stack", "deep-spawn", shape.to_string(), format!("{}", e)),
+        }
+    }
 }
 
 pub fn run(prop: &str, thorough: bool, seed: u64, rep: &mut Report) {
